@@ -100,10 +100,10 @@ def run(ctx):
     jobs.append({"terms": by_size[0], "more_terms": by_size[1:] + by_size[::-1], "part": "subgroup", "shard": 0, "nshards": 1})
     nsh = 6
     for i in range(nsh):
-        jobs.append({"terms": main_terms, "part": "fold", "nrandom": 12 if thorough else 2, "shard": i, "nshards": nsh})
+        jobs.append({"terms": main_terms, "part": "fold", "nrandom": 40 if thorough else 2, "shard": i, "nshards": nsh})
     for i in range(4):
-        jobs.append({"terms": main_terms, "part": "combine", "nrandom": 7 if thorough else 3, "shard": i, "nshards": 4})
-    jobs.append({"terms": main_terms, "part": "final", "nrandom": 20 if thorough else 4, "shard": 0})
+        jobs.append({"terms": main_terms, "part": "combine", "nrandom": 25 if thorough else 3, "shard": i, "nshards": 4})
+    jobs.append({"terms": main_terms, "part": "final", "nrandom": 80 if thorough else 4, "shard": 0})
     jobs.append({"terms": main_terms, "part": "round", "shard": 0})
 
     def one(j):
